@@ -1265,17 +1265,71 @@ class HashSetProfile(TreeProfile):
     def accept_fn(self, f):
         if f.name in ("get_register", "set_register", "get_field", "set_field", "initialize"):
             return False
-        if f.name == "next":
-            return False
         return True
 
     def preprocess(self, f):
-        pass
+        if f.name == "next":
+            # the iterator: `self.bucket` / `self.node` are its own state, `self.hash_set` is the set it walks
+            def rewrite(n):
+                for k, v in list(n.__dict__.items()):
+                    if isinstance(v, N):
+                        n.__dict__[k] = fix(v)
+                    elif isinstance(v, list):
+                        n.__dict__[k] = [fix(x) if isinstance(x, N) else (tuple(fix(y) if isinstance(y, N) else ([fix(z) if isinstance(z, N) else z for z in y] if isinstance(y, list) else y) for y in x) if isinstance(x, tuple) else x) for x in v]
+
+            def fix(n):
+                if n.kind == "field" and n.e.kind == "path" and n.e.path == ["self"]:
+                    if n.name == "bucket":
+                        return N("path", path=["it_bucket"], generics=None)
+                    if n.name == "node":
+                        return N("path", path=["it_node"], generics=None)
+                    if n.name == "hash_set":
+                        return N("path", path=["self"], generics=None)
+                rewrite(n)
+                return n
+            rewrite(f.body)
 
     def translate_fn(self, fi):
         self.recvals = set()
         self.hashers = {}
+        if fi.fn.name == "next":
+            return self.translate_next(fi)
         return Translator.translate_fn(self, fi)
+
+    def translate_next(self, fi):
+        f = fi.fn
+        self.cur = fi
+        self.tmp = 0
+        self.aliases = {}
+        self.muts = {"it_bucket", "it_node"}
+        self.broke_flags = []
+        self.env = [{"it_bucket": "it_bucket", "it_node": "it_node"}]
+        self.mutset = {"it_bucket", "it_node"}
+        self.mutself = False
+        self.ret_unit = False
+        self.bool_ret = False
+        self.em = Emitter()
+        self.em.w("let mut it_bucket := it_bucket0")
+        self.em.w("let mut it_node := it_node0")
+        self.em.w("let fuel := m.recs.length + 1")
+        self.next_mode = True
+        try:
+            self.block_stmts(f.body, is_fn_body=True)
+        finally:
+            self.next_mode = False
+        hdr = (f"def {fi.lean_name} {self.PRE_PARAMS} (m : HImage β) (it_bucket0 it_node0 : Nat) :\n"
+               f"    Option β × Nat × Nat := Id.run do")
+        return f"/-- `HashSetIterator::next` (line {f.src_line}): the item, and the iterator's `bucket` / `node` afterwards. -/\n" + hdr + "\n" + "\n".join(self.em.lines)
+
+    next_mode = False
+
+    def ret_value(self, val):
+        if self.next_mode:
+            return f"({val}, it_bucket, it_node)"
+        return Translator.ret_value(self, val)
+
+    def known_narrow(self, e, bits):
+        return False
 
     def treat_as_mut(self, f):
         return False
@@ -1311,7 +1365,10 @@ class HashSetProfile(TreeProfile):
             if init.kind == "call" and init.f.kind == "path" and init.f.path == ["DefaultHasher", "new"]:
                 self.hashers[pat.name] = None
                 return
-            # by-value copy of a record: `let node = node!(self.nodes, current);`
+            # by-value copy of a record: `let node = node!(self.nodes, current);` — a shared borrow `&node!(..)` is
+            # the same thing (nothing can be written while it is alive)
+            if init.kind == "ref" and not init.mut and init.e.kind == "macro":
+                init = init.e
             if init.kind == "macro" and init.name == "node" and self.is_nodes(init.args[0]):
                 idx = self.ex(init.args[1], hoist=True)
                 self.em.w(f"let {self.bind(pat.name)} := rd d m {self.atom(idx)}")
@@ -1414,7 +1471,7 @@ class HashSetProfile(TreeProfile):
         return False
 
 
-HSET_FUNCS = {n: n for n in ["capacity", "size", "is_full", "is_empty", "contains", "add_node", "remove_node", "insert", "remove"]}
+HSET_FUNCS = {n: n for n in ["capacity", "size", "is_full", "is_empty", "contains", "add_node", "remove_node", "insert", "remove", "next"]}
 
 HSET_HEADER = '''/-
   GENERATED by tools/rust2lean.py from {path} — do not edit.
@@ -1454,6 +1511,739 @@ def gen_hset(rel, ns, outname):
     return report
 
 
+# =================================================================================== array set profile
+class ArraySetProfile(Translator):
+    """`array_set.rs`: state = the length prefix and all value slots (`ASet α`). Elements are compared through the
+    key projection `key : α → κ` (`Ord::cmp`). `P` is the largest value of the prefix type (`checked_add`).
+    Bounds-checked indexing fails (`none`) out of range; `ptr::copy` is `copyWithin`, which fails where the Rust
+    would leave the slice (undefined behaviour)."""
+    STATE_TY = "ASet α"
+    PRE_PARAMS = "(key : α → κ) (P : Nat)"
+    PRE_ARGS = "key P"
+    FUEL = "m0.len + 1"
+    TYPE_MAP = {"V": "α", "usize": "Nat"}
+    CONSTS = {}
+    INT_BITS = 64
+
+    def __init__(self, src, wanted):
+        self.ptrs = {}
+        super().__init__(src, wanted)
+
+    def accept_fn(self, f):
+        return f.name not in ("from_bytes", "from_bytes_mut", "deref")
+
+    def translate_fn(self, fi):
+        self.ptrs = {}
+        return super().translate_fn(fi)
+
+    def body_can_fail(self, body):
+        found = []
+
+        def visit(n):
+            if n.kind == "index":
+                found.append(1)
+            if n.kind == "call" and n.f.kind == "path" and n.f.path[-2:] == ["ptr", "copy"]:
+                found.append(1)
+        self.walk(body, visit)
+        return bool(found) or super().body_can_fail(body)
+
+    def effectful(self, e):
+        found = []
+        self.walk(e, lambda n: found.append(1) if n.kind == "index" else None)
+        return bool(found) or super().effectful(e)
+
+    def ret_type_override(self, f, ret):
+        if f.name in ("get", "get_mut"):
+            return "Option Nat" if f.name == "get_mut" else "Option α"
+        return ret
+
+    def lean_type(self, ty):
+        if ty is not None:
+            t = ty.replace(" ", "")
+            if t in ("Option<&V>", "Option<&mutV>"):
+                return "Option α"
+        return super().lean_type(ty)
+
+    # -- places
+    def is_values(self, e):
+        return e.kind == "field" and self.is_self(e.e) and e.name == "values"
+
+    def is_length(self, e):
+        while e.kind in ("deref", "paren"):
+            e = e.e
+        return e.kind == "field" and self.is_self(e.e) and e.name == "length"
+
+    def cond(self, e):
+        return self.ex(e, hoist=True)
+
+    def profile_mcall(self, e, hoist):
+        if e.name == "len" and self.is_values(e.recv):
+            return "m.vals.length"
+        if e.name == "is_none" and e.recv.kind == "mcall" and e.recv.name == "checked_add" and self.is_length(e.recv.recv):
+            return f"¬ (m.len + {self.atom(self.ex(e.recv.args[0], hoist))} ≤ P)"
+        if e.name == "as_mut_ptr" and self.is_values(e.recv):
+            return "0"
+        if e.name == "add" and e.recv.kind == "path" and len(e.recv.path) == 1 and e.recv.path[0] in self.ptrs:
+            return f"{self.atom(self.lookup(e.recv.path[0]))} + {self.atom(self.ex(e.args[0], hoist))}"
+        return None
+
+    def saturating_add(self, a, b):
+        # usize indices of a slice never reach usize::MAX (a slice has fewer than 2^63 elements)
+        return f"{a} + {b}"
+
+    def cast_expr(self, e, hoist):
+        if self.is_length(e.e) and e.ty.replace(" ", "") == "usize":
+            return "m.len"
+        return super().cast_expr(e, hoist)
+
+    def ex(self, e, hoist=False):
+        if e.kind == "deref" and self.is_length(e):
+            return "m.len"
+        # the place `&mut self.values[i]` (get_mut) is represented by the index i
+        if e.kind == "ref" and e.mut and e.e.kind == "index" and self.is_values(e.e.e) and self.cur.fn.name == "get_mut":
+            return self.ex(e.e.idx, hoist)
+        return super().ex(e, hoist)
+
+    def profile_index(self, e, hoist):
+        if self.is_values(e.e):
+            if not hoist:
+                raise Untranslatable("indexing in a position where the bounds check cannot be hoisted")
+            i = self.ex(e.idx, hoist)
+            t = self.fresh()
+            self.em.w(f"let {t} ← m.vals[{i}]?")
+            return t
+        return None
+
+    def let_stmt(self, s):
+        if s.pat.kind == "pident" and s.init is not None:
+            init = s.init
+            is_ptr = (init.kind == "mcall" and init.name == "as_mut_ptr") or \
+                     (init.kind == "mcall" and init.name == "add" and init.recv.kind == "path" and init.recv.path[0] in self.ptrs)
+            if is_ptr:
+                v = self.ex(init, hoist=True)
+                self.em.w(f"let {self.bind(s.pat.name)} := {v}")
+                self.ptrs[s.pat.name] = True
+                return
+        return super().let_stmt(s)
+
+    def effect_stmt(self, e):
+        if e.kind == "call" and e.f.kind == "path" and e.f.path[-2:] == ["ptr", "copy"] and len(e.args) == 3:
+            a = [self.ex(x, hoist=True) for x in e.args]
+            t = self.fresh()
+            self.em.w(f"let {t} ← (ASet.copyWithin m.vals {self.atom(a[0])} {self.atom(a[1])} {self.atom(a[2])}).toOption")
+            self.em.w(f"m := {{ m with vals := {t} }}")
+            return True
+        return super().effect_stmt(e)
+
+    def profile_assign(self, s):
+        lhs = s.lhs
+        if lhs.kind == "index" and self.is_values(lhs.e) and s.op == "=":
+            i = self.ex(lhs.idx, hoist=True)
+            v = self.ex(s.rhs, hoist=True)
+            self.em.w(f"if ¬ ({i} < m.vals.length) then failure")
+            self.em.w(f"m := {{ m with vals := m.vals.set {self.atom(i)} {self.atom(v)} }}")
+            return True
+        if self.is_length(lhs) and s.op in ("+=", "-="):
+            v = self.ex(s.rhs, hoist=True)
+            self.em.w(f"m := {{ m with len := m.len {s.op[0]} {self.atom(v)} }}")
+            return True
+        return False
+
+    # `match a.cmp(b) { Ordering::Less [if g] => .., Ordering::Greater => .., Ordering::Equal => .. }`
+    def match_stmt(self, e, target):
+        sc = e.e
+        if sc.kind == "mcall" and sc.name == "cmp" and len(sc.args) == 1:
+            a = self.ex(sc.recv, hoist=True)
+            b = self.ex(sc.args[0], hoist=True)
+            first = True
+            n = len(e.arms)
+            depth = 0
+            for j, (pats, guard, body) in enumerate(e.arms):
+                if len(pats) != 1 or pats[0].kind != "pctor" or pats[0].path[-1] not in ("Less", "Greater", "Equal"):
+                    raise Untranslatable("match on cmp: unexpected arm")
+                o = pats[0].path[-1]
+                c = {"Less": f"key {self.atom(a)} < key {self.atom(b)}", "Greater": f"key {self.atom(b)} < key {self.atom(a)}", "Equal": None}[o]
+                if guard is not None:
+                    g = self.ex(guard)
+                    c = f"({c}) ∧ ({g})" if c else g
+                last = (j == n - 1)
+                if last and o == "Equal" and guard is None:
+                    if not first:
+                        self.em.w("else")
+                        self.em.ind += 1
+                        depth += 1
+                    self.arm_body(body, target)
+                else:
+                    if c is None:
+                        raise Untranslatable("match on cmp: Equal arm before the end")
+                    if not first:
+                        self.em.w("else")
+                        self.em.ind += 1
+                        depth += 1
+                    self.em.w(f"if {c} then")
+                    self.em.ind += 1
+                    self.arm_body(body, target)
+                    self.em.ind -= 1
+                first = False
+            self.em.ind -= depth
+            return
+        return super().match_stmt(e, target)
+
+    def arm_body(self, body, target):
+        n0 = len(self.em.lines)
+        if target is not None:
+            self.value_stmt(body, target)
+        elif body.kind == "block":
+            self.block_stmts(body)
+        else:
+            self.expr_stmt(body)
+        if len(self.em.lines) == n0:
+            self.em.w("pure ()")
+
+
+ASET_FUNCS = {n: n for n in ["len", "is_empty", "is_full", "index", "get", "contains", "get_mut", "insert", "take", "remove"]}
+
+ASET_HEADER = '''/-
+  GENERATED by tools/rust2lean.py from {path} — do not edit.
+  A syntax-directed transliteration of the Rust functions into Lean `do` notation (see the translator's
+  docstring for the conventions). `key` is the projection `Ord::cmp` compares, `P` the largest value of the
+  length-prefix type. `Stevia/Proofs/GenASet.lean` proves each definition equal to the model `Stevia.ASet.*`.
+-/
+import Stevia.Model.ArraySet
+import Stevia.Model.Fuel
+
+namespace Stevia
+namespace {ns}
+variable {{α κ : Type}} [LinOrd κ]
+set_option linter.unusedVariables false
+
+'''
+
+
+def gen_aset(rel, ns, outname):
+    path = os.path.join(REPO, rel)
+    report = {"source": rel, "namespace": ns, "translated": [], "untranslatable": {}, "missing": []}
+    try:
+        src = open(path).read()
+        tr = ArraySetProfile(src, ASET_FUNCS)
+        order = order_functions(tr)
+        tr.fns = {n: tr.fns[n] for n in order}
+        body = tr.translate_all()
+        report["translated"] = [n for n in tr.fns if n not in tr.errors]
+        report["untranslatable"] = tr.errors
+        report["missing"] = tr.missing
+    except (OSError, ParseError) as ex:
+        body = ""
+        report["untranslatable"]["<file>"] = str(ex)
+    text = ASET_HEADER.format(path=rel, ns=ns) + body + f"\n\nend {ns}\nend Stevia\n"
+    write_if_changed(os.path.join(GEN, outname), text)
+    return report
+
+
+# ==================================================================================== strings profile
+class StrProfile(Translator):
+    """`prefix_str.rs` / `pod_str.rs`: byte slices are `ByteArray`s, `&str` arguments are `String`s. `W` is the size of
+    the length prefix, `P` its largest value, `N` the capacity of a `PodStr`. Slicing, `split_at` and
+    `copy_from_slice`/`clone_from_slice` fail (`none`) where the Rust panics; `Result<_, Utf8Error>` is an inner
+    `Option` (`from_utf8` is `ByteArray.validateUTF8`)."""
+    STATE_TY = "ByteArray"
+    PRE_PARAMS = "(W P N : Nat)"
+    PRE_ARGS = "W P N"
+    TYPE_MAP = {"usize": "Nat"}
+    CONSTS = {"MAX_SIZE": "N"}
+
+    def __init__(self, src, wanted, accept=None):
+        self.accept = accept
+        super().__init__(src, wanted)
+        for fi in self.fns.values():
+            fi.can_fail = True
+
+    def accept_fn(self, f):
+        return self.accept(f) if self.accept else True
+
+    def lean_type(self, ty):
+        if ty is None:
+            return "Unit"
+        t = ty.replace(" ", "").replace("'a", "").replace("'_", "")
+        if t in ("&[u8]", "&mut[u8]"):
+            return "ByteArray"
+        if t in ("&str", "&mutstr"):
+            return "String"
+        if t == "Self":
+            return "ByteArray"
+        m = re.match(r"Result<(.*),(?:std::str::)?Utf8Error>$", t)
+        if m:
+            inner = m.group(1)
+            return "Option " + ("ByteArray" if inner in ("&str", "&mutstr") else self.paren_ty(self.lean_type(inner)))
+        return super().lean_type(ty)
+
+    # -- function shape: `self.value` is the state of &mut self methods; a `&mut [u8]` parameter is in-out
+    def translate_fn(self, fi):
+        f = fi.fn
+        self.cur = fi
+        self.tmp = 0
+        self.aliases = {}
+        self.muts = self.assigned_vars(f.body)
+        self.broke_flags = []
+        self.env = [{}]
+        self.mutset = set()
+        self.strings = {pn for pn, pt in f.params if "str" in pt.replace(" ", "") and "[" not in pt}
+        em = Emitter()
+        self.em = em
+        self.inout = None
+        params = []
+        for pn, pt in f.params:
+            t = self.lean_type(pt)
+            if "mut" in pt and "[u8]" in pt.replace(" ", ""):
+                self.inout = pn
+                params.append(f"({pn}0 : {t})")
+            else:
+                params.append(f"({lname(pn)} : {t})")
+        self.has_self = f.self_kind is not None
+        self.mutself = f.self_kind == "mut"
+        ret = self.lean_type(f.ret) if f.ret else "Unit"
+        self.result_ret = bool(f.ret) and "Result<" in f.ret.replace(" ", "")
+        self.ret_unit = ret == "Unit"
+        self.bool_ret = False
+        parts = []
+        if self.mutself:
+            parts.append("ByteArray")
+        if self.inout:
+            parts.append("ByteArray")
+        if not self.ret_unit:
+            parts.append(self.paren_ty(ret))
+        full = " × ".join(parts) if parts else "Unit"
+        state = " (value0 : ByteArray)" if self.mutself else (" (value : ByteArray)" if self.has_self else "")
+        hdr = f"def {fi.lean_name} {self.PRE_PARAMS}{state}" + "".join(" " + p for p in params) + f" :\n    Option ({full}) := do"
+        if self.mutself:
+            em.w("let mut value := value0")
+            self.env[0]["value"] = "value"
+            self.mutset.add("value")
+        if self.inout:
+            em.w(f"let mut {self.inout} := {self.inout}0")
+            self.mutset.add(self.inout)
+        if self.uses_fuel(f.body):
+            em.w("let fuel := " + self.fuel_expr(f))
+        self.block_stmts(f.body, is_fn_body=True)
+        return f"/-- `{f.name}` (line {f.src_line}). -/\n" + hdr + "\n" + "\n".join(em.lines)
+
+    def fuel_expr(self, f):
+        return "string.utf8ByteSize + 1"
+
+    def ret_value(self, val):
+        parts = []
+        if self.mutself:
+            parts.append("value")
+        if self.inout:
+            parts.append(self.inout)
+        if val is not None and not self.ret_unit:
+            parts.append(val)
+        if not parts:
+            return "()"
+        return parts[0] if len(parts) == 1 else "(" + ", ".join(parts) + ")"
+
+    def emit_return(self, e):
+        if e is None:
+            self.em.w(f"return {self.ret_value(None)}")
+            return
+        e0 = e
+        while e0.kind == "paren":
+            e0 = e0.e
+        # tail `str::from_utf8(x)` of a function returning Result<&str, _>
+        if e0.kind == "call" and e0.f.kind == "path" and e0.f.path[-1] == "from_utf8":
+            x = self.ex(e0.args[0], hoist=True)
+            self.em.w(f"return {self.ret_value(f'(if ({x}).validateUTF8 then some {self.atom(x)} else none)')}")
+            return
+        if e0.kind == "call" and e0.f.kind == "path" and e0.f.path == ["Ok"]:
+            v = self.ex(e0.args[0], hoist=True)
+            self.em.w(f"return {self.ret_value(f'some {self.atom(v)}')}")
+            return
+        v = self.ex(e0, hoist=True)
+        self.em.w(f"return {self.ret_value(v)}")
+
+    # -- places and slices
+    def place(self, e):
+        """Name of the mutable byte buffer an expression denotes, if it is one."""
+        while e.kind in ("ref", "deref", "paren"):
+            e = e.e
+        if e.kind == "field" and self.is_self(e.e) and e.name == "value":
+            return "value"
+        if e.kind == "path" and len(e.path) == 1:
+            return self.lookup(e.path[0])
+        return None
+
+    def slice_parts(self, e):
+        """(base expr node, lo node or None, hi node or None) for `x[lo..hi]`."""
+        while e.kind in ("ref", "paren"):
+            e = e.e
+        if e.kind == "index" and e.idx.kind == "range":
+            return e.e, e.idx.lo, e.idx.hi
+        return None
+
+    def ex(self, e, hoist=False):
+        k = e.kind
+        if k == "field" and self.is_self(e.e) and e.name == "value":
+            return "value"
+        if k == "field" and e.name == "value" and e.e.kind == "path":
+            return self.ex(e.e, hoist)          # `to_return.value`: Self is represented by its value
+        if k == "struct" and e.path == ["Self"]:
+            return self.ex(e.fields[0][1], hoist)
+        if k == "unsafe":
+            if e.body.stmts or e.body.tail is None:
+                raise Untranslatable("unsafe block with statements in expression position")
+            return self.ex(e.body.tail, hoist)
+        if k == "arrayrep":
+            v = self.ex(e.e, hoist)
+            if v != "0":
+                raise Untranslatable("array repeat of a non-zero value")
+            return f"zerosBA {self.atom(self.ex(e.n, hoist))}"
+        sp = self.slice_parts(e) if k in ("ref", "index", "paren") else None
+        if sp is not None:
+            base, lo, hi = sp
+            if not hoist:
+                raise Untranslatable("slicing in a position where the bounds check cannot be hoisted")
+            b = self.ex(base, hoist)
+            lo_t = self.ex(lo, hoist) if lo is not None else "0"
+            hi_t = self.ex(hi, hoist) if hi is not None else f"{self.atom(b)}.size"
+            self.em.w(f"if ¬ ({lo_t} ≤ {hi_t} ∧ {hi_t} ≤ {self.atom(b)}.size) then failure")
+            return f"{self.atom(b)}.extract {self.atom(lo_t)} {self.atom(hi_t)}"
+        if k == "chr":
+            if e.val in ("b'\\0'",):
+                return "0"
+            raise Untranslatable(f"char literal {e.val}")
+        return super().ex(e, hoist)
+
+    def path_expr(self, e):
+        p = e.path
+        if len(p) == 2 and p[0].startswith("<") and p[1] == "MAX":
+            return "P"
+        return super().path_expr(e)
+
+    def cast_expr(self, e, hoist):
+        ty = e.ty.replace(" ", "")
+        v = self.ex(e.e, hoist)
+        if ty == "usize":
+            return v
+        if ty == "$prefix_type":
+            return f"{self.atom(v)} % (P + 1)"
+        raise Untranslatable(f"cast to {e.ty}")
+
+    def call_expr(self, e, hoist):
+        f = e.f
+        if f.kind == "path":
+            p = f.path
+            if p[-1] == "size_of" and f.generics and "prefix_type" in f.generics:
+                return "W"
+            if p[-1] in ("pod_read_unaligned",):
+                return f"leOfBA {self.atom(self.ex(e.args[0], hoist))}"
+            if p[-1] in ("cast_slice", "cast_slice_mut"):
+                return self.ex(e.args[0], hoist)
+            if p[0] == "Self" and len(p) == 2 and p[1] in self.fns:
+                if not hoist:
+                    raise Untranslatable("call in non-hoistable position")
+                callee = self.fns[p[1]]
+                args = []
+                inout_arg = None
+                for a, (pn, pt) in zip(e.args, callee.fn.params):
+                    args.append(self.atom(self.ex(a, hoist)))
+                    if "mut" in pt and "[u8]" in pt.replace(" ", ""):
+                        inout_arg = self.place(a)
+                t = self.fresh()
+                self.em.w(f"let {t} ← {callee.lean_name} {self.PRE_ARGS} {' '.join(args)}")
+                if inout_arg is not None:
+                    self.em.w(f"{inout_arg} := {t}.1")
+                    return f"{t}.2"
+                return t
+        return super().call_expr(e, hoist)
+
+    def mcall_expr(self, e, hoist):
+        r = e.recv
+        n = e.name
+        if n == "len" and not e.args:
+            if r.kind == "path" and len(r.path) == 1 and r.path[0] in self.strings:
+                return f"{self.lookup(r.path[0])}.utf8ByteSize"
+            return f"{self.atom(self.ex(r, hoist))}.size"
+        if n == "as_bytes":
+            return f"{self.atom(self.ex(r, hoist))}.toByteArray"
+        if n == "is_char_boundary":
+            return f"(String.Pos.Raw.mk {self.atom(self.ex(e.args[0], hoist))}).isValid {self.atom(self.ex(r, hoist))}"
+        if n == "to_le_bytes":
+            inner = r
+            while inner.kind == "paren":
+                inner = inner.e
+            if inner.kind == "cast" and inner.ty.replace(" ", "") == "$prefix_type":
+                return f"leBA W ({self.ex(inner.e, hoist)} % (P + 1))"
+            raise Untranslatable("to_le_bytes of an unexpected value")
+        if n == "unwrap_or" and r.kind == "mcall" and r.name == "position" and r.recv.kind == "mcall" and r.recv.name == "iter":
+            # x.iter().position(|&b| b == c).unwrap_or(d)
+            base = self.ex(r.recv.recv, hoist)
+            cl = r.args[0]
+            if cl.kind != "closure" or cl.body.kind != "bin" or cl.body.op != "==":
+                raise Untranslatable("position with an unexpected predicate")
+            c = self.ex(cl.body.r)
+            return f"({self.atom(base)}.toList.findIdx? (· == {c})).getD {self.atom(self.ex(e.args[0], hoist))}"
+        if n in ("split_at", "split_at_mut"):
+            if not hoist:
+                raise Untranslatable("split_at in non-hoistable position")
+            b = self.ex(r, hoist)
+            k = self.ex(e.args[0], hoist)
+            self.em.w(f"if ¬ ({k} ≤ {self.atom(b)}.size) then failure")
+            return f"({self.atom(b)}.extract 0 {self.atom(k)}, {self.atom(b)}.extract {self.atom(k)} {self.atom(b)}.size)"
+        if self.is_self(r) and n in self.fns:
+            callee = self.fns[n]
+            if not hoist:
+                raise Untranslatable("call in non-hoistable position")
+            args = " ".join(self.atom(self.ex(a, hoist)) for a in e.args)
+            t = self.fresh()
+            self.em.w(f"let {t} ← {callee.lean_name} {self.PRE_ARGS} value {args}")
+            if callee.fn.self_kind == "mut":
+                self.em.w(f"value := {t}")
+                return "()"
+            return t
+        if n == "into":
+            raise Untranslatable("into")
+        return super().mcall_expr(e, hoist)
+
+    def effect_stmt(self, e):
+        if e.kind == "mcall" and e.name in ("copy_from_slice", "clone_from_slice") and not self.is_self(e.recv):
+            sp = self.slice_parts(e.recv)
+            if sp is None:
+                raise Untranslatable("copy into something that is not a slice of a buffer")
+            base, lo, hi = sp
+            x = self.place(base)
+            if x is None or lo is not None or hi is None:
+                raise Untranslatable("copy into an unexpected slice")
+            n = self.ex(hi, hoist=True)
+            src = self.ex(e.args[0], hoist=True)
+            self.em.w(f"if ¬ ({n} ≤ {x}.size) then failure")
+            self.em.w(f"if ¬ ({self.atom(src)}.size = {n}) then failure")
+            self.em.w(f"{x} := {self.atom(src)} ++ {x}.extract {self.atom(n)} {x}.size")
+            return True
+        if e.kind == "mcall" and e.name == "fill":
+            sp = self.slice_parts(e.recv)
+            if sp is None:
+                raise Untranslatable("fill of something that is not a slice of a buffer")
+            base, lo, hi = sp
+            x = self.place(base)
+            if x is None or lo is None or hi is not None or self.ex(e.args[0]) != "0":
+                raise Untranslatable("fill of an unexpected slice")
+            n = self.ex(lo, hoist=True)
+            self.em.w(f"if ¬ ({n} ≤ {x}.size) then failure")
+            self.em.w(f"{x} := {x}.extract 0 {self.atom(n)} ++ zerosBA ({x}.size - {self.atom(n)})")
+            return True
+        if e.kind == "mcall" and self.is_self(e.recv) and e.name in self.fns:
+            self.mcall_expr(e, True)
+            return True
+        if e.kind == "try":
+            inner = e.e
+            if inner.kind == "call" and inner.f.kind == "path" and inner.f.path[-1] == "from_utf8":
+                x = self.ex(inner.args[0], hoist=True)
+                self.em.w(f"if ¬ ({x}).validateUTF8 then")
+                self.em.w(f"  return {self.ret_value('none')}")
+                return True
+            raise Untranslatable("? on an unexpected expression")
+        return super().effect_stmt(e)
+
+    def expr_stmt(self, e):
+        if e.kind == "try":
+            if not self.effect_stmt(e):
+                raise Untranslatable("?")
+            return
+        if e.kind == "unsafe":
+            self.block_stmts(e.body)
+            return
+        super().expr_stmt(e)
+
+    def let_stmt(self, s):
+        # `let value = [0; MAX_SIZE]` etc. are ordinary; a `let mut x = <byte buffer>` must be mutable
+        if s.pat.kind == "pident" and s.init is not None and s.pat.mut:
+            v = self.ex(s.init, hoist=True)
+            name = s.pat.name
+            used_as_place = name in self.muts or True
+            self.em.w(f"let mut {self.bind(name, True)} := {v}")
+            return
+        super().let_stmt(s)
+
+
+PSTR_FUNCS = {n: n for n in ["from_bytes_unchecked", "from_bytes", "from_bytes_mut", "new_unchecked", "new", "copy_from_slice", "copy_from_str", "size"]}
+PODSTR_FUNCS = {"copy_from_slice": "copy_from_slice", "copy_from_str": "copy_from_str", "as_str": "as_str", "from": "from_str"}
+
+STR_HEADER = '''/-
+  GENERATED by tools/rust2lean.py from {path} — do not edit.
+  A syntax-directed transliteration of the Rust functions into Lean `do` notation (see the translator's
+  docstring for the conventions). `W` = size of the length prefix, `P` = its largest value, `N` = `MAX_SIZE`.
+  `Stevia/Proofs/GenStr.lean` relates each definition to the model (`Stevia.PStr.*`, `Stevia.PodStr.*`).
+-/
+import Stevia.Model.Str
+import Stevia.Model.Fuel
+
+namespace Stevia
+namespace {ns}
+set_option linter.unusedVariables false
+
+'''
+
+
+def gen_str(rel, ns, outname, funcs, accept=None):
+    path = os.path.join(REPO, rel)
+    report = {"source": rel, "namespace": ns, "translated": [], "untranslatable": {}, "missing": []}
+    try:
+        src = open(path).read()
+        tr = StrProfile(src, funcs, accept)
+        order = order_functions(tr)
+        tr.fns = {n: tr.fns[n] for n in order}
+        body = tr.translate_all()
+        report["translated"] = [n for n in tr.fns if n not in tr.errors]
+        report["untranslatable"] = tr.errors
+        report["missing"] = tr.missing
+    except (OSError, ParseError) as ex:
+        body = ""
+        report["untranslatable"]["<file>"] = str(ex)
+    text = STR_HEADER.format(path=rel, ns=ns) + body + f"\n\nend {ns}\nend Stevia\n"
+    write_if_changed(os.path.join(GEN, outname), text)
+    return report
+
+
+# ======================================================================== pod bool / option / ZeroCopy::load
+POD_HEADER = '''/-
+  GENERATED by tools/rust2lean.py from src/pod/pod_bool.rs, src/pod/pod_option.rs, src/lib.rs — do not edit.
+  `PodBool` is its byte, a `PodOption<T>` is the bytes of its inner value (`isSome` = `Nullable::is_some`),
+  `n` = `size_of::<Self>()`. `Stevia/Proofs/GenPod.lean` proves each definition equal to the model `Stevia.Pod.*`.
+-/
+import Stevia.Model.Str
+
+namespace Stevia
+namespace GenPod
+set_option linter.unusedVariables false
+
+'''
+
+
+def gen_pod():
+    report = {"source": "src/pod/pod_bool.rs, src/pod/pod_option.rs, src/lib.rs", "namespace": "GenPod", "translated": [], "untranslatable": {}, "missing": []}
+    defs = []
+
+    def is_path(e, *p):
+        return e.kind == "path" and e.path == list(p)
+
+    def strip(e):
+        while e.kind in ("paren", "deref", "ref"):
+            e = e.e
+        return e
+
+    def single(body):
+        if body is None or body.stmts or body.tail is None:
+            raise Untranslatable("not a single expression")
+        return body.tail
+
+    def emit(name, text):
+        defs.append(text)
+        report["translated"].append(name)
+
+    def fail(name, why):
+        report["untranslatable"][name] = why
+
+    try:
+        fns = scan_functions(open(os.path.join(REPO, "src/pod/pod_bool.rs")).read())
+    except OSError as ex:
+        fns = []
+        fail("<pod_bool.rs>", str(ex))
+    for f in fns:
+        if f.name != "from":
+            continue
+        pt = f.params[0][1].replace(" ", "")
+        pn = f.params[0][0]
+        nm = {"bool": "bool_to_pod", "&bool": "bool_ref_to_pod", "&PodBool": "pod_ref_to_bool", "PodBool": "pod_to_bool"}.get(pt)
+        if nm is None:
+            continue
+        try:
+            e = single(f.body)
+            if pt in ("bool", "&bool"):
+                # Self(b.into()) / Self((*b).into())
+                if not (e.kind == "call" and is_path(e.f, "Self") and len(e.args) == 1):
+                    raise Untranslatable("expected Self(..)")
+                a = e.args[0]
+                if not (a.kind == "mcall" and a.name == "into" and is_path(strip(a.recv), pn)):
+                    raise Untranslatable("expected b.into()")
+                emit(nm, f"/-- `From<{pt}> for PodBool` (line {f.src_line}): `bool::into::<u8>` is 1 for true, 0 for false. -/\ndef {nm} ({pn} : Bool) : UInt8 := if {pn} then 1 else 0")
+            else:
+                # b.0 != 0
+                if not (e.kind == "bin" and e.op in ("!=", "==") and e.l.kind == "tfield" and e.l.idx == 0 and is_path(strip(e.l.e), pn) and e.r.kind == "num"):
+                    raise Untranslatable("expected b.0 != <literal>")
+                op = "≠" if e.op == "!=" else "="
+                emit(nm, f"/-- `From<{pt}> for bool` (line {f.src_line}). -/\ndef {nm} ({pn} : UInt8) : Bool := decide ({pn} {op} {int(e.r.val, 0)})")
+        except (Untranslatable, ParseError) as ex:
+            fail(nm, str(ex))
+    for want in ("bool_to_pod", "bool_ref_to_pod", "pod_ref_to_bool", "pod_to_bool"):
+        if want not in report["translated"] and want not in report["untranslatable"]:
+            report["missing"].append(want)
+
+    try:
+        fns = scan_functions(open(os.path.join(REPO, "src/pod/pod_option.rs")).read())
+    except OSError as ex:
+        fns = []
+        fail("<pod_option.rs>", str(ex))
+    for f in fns:
+        if f.name not in ("value", "value_mut") or f.body is None:
+            continue
+        nm = "option_" + f.name
+        try:
+            e = single(f.body)
+            if e.kind != "if" or e.els is None:
+                raise Untranslatable("expected if/else")
+            c = e.cond
+            neg = False
+            if c.kind == "un" and c.op == "!":
+                neg, c = True, c.e
+            if not (c.kind == "mcall" and c.name in ("is_some", "is_none") and c.recv.kind == "tfield" and c.recv.idx == 0 and is_path(strip(c.recv.e), "self")):
+                raise Untranslatable("expected self.0.is_some()")
+            pred = "isSome inner" if c.name == "is_some" else "isNone inner"
+            if neg:
+                pred = f"¬ {pred}"
+
+            def arm(b):
+                t = single(b) if b.kind == "block" else b
+                if is_path(t, "None"):
+                    return "none"
+                if t.kind == "call" and is_path(t.f, "Some") and strip(t.args[0]).kind == "tfield" and is_path(strip(strip(t.args[0]).e), "self"):
+                    return "some inner"
+                raise Untranslatable("unexpected arm")
+            emit(nm, f"/-- `PodOption::{f.name}` (line {f.src_line}). -/\ndef {nm} (isSome isNone : ByteArray → Bool) (inner : ByteArray) : Option ByteArray :=\n  if {pred} then {arm(e.then)} else {arm(e.els)}")
+        except (Untranslatable, ParseError) as ex:
+            fail(nm, str(ex))
+    for want in ("option_value", "option_value_mut"):
+        if want not in report["translated"] and want not in report["untranslatable"]:
+            report["missing"].append(want)
+
+    try:
+        fns = scan_functions(open(os.path.join(REPO, "src/lib.rs")).read())
+    except OSError as ex:
+        fns = []
+        fail("<lib.rs>", str(ex))
+    for f in fns:
+        if f.name not in ("load", "load_mut") or f.body is None:
+            continue
+        try:
+            e = single(f.body)
+            if not (e.kind == "call" and e.f.kind == "path" and e.f.path[0] == "bytemuck" and e.f.path[-1] in ("from_bytes", "from_bytes_mut") and len(e.args) == 1):
+                raise Untranslatable("expected bytemuck::from_bytes(..)")
+            a = strip(e.args[0])
+            if not (a.kind == "index" and is_path(strip(a.e), "data") and a.idx.kind == "range" and a.idx.lo is None and a.idx.hi is not None):
+                raise Untranslatable("expected &data[..n]")
+            hi = a.idx.hi
+            if not (hi.kind == "call" and hi.f.kind == "path" and hi.f.path[-1] == "size_of" and (hi.f.generics or "").replace(" ", "") == "Self"):
+                raise Untranslatable("expected size_of::<Self>()")
+            emit(f.name, f"/-- `ZeroCopy::{f.name}` (line {f.src_line}): the view of the first `n = size_of::<Self>()` bytes; the slice index panics if there are fewer. -/\ndef {f.name} (n : Nat) (data : ByteArray) : Option ByteArray :=\n  if n ≤ data.size then some (data.extract 0 n) else none")
+        except (Untranslatable, ParseError) as ex:
+            fail(f.name, str(ex))
+    for want in ("load", "load_mut"):
+        if want not in report["translated"] and want not in report["untranslatable"]:
+            report["missing"].append(want)
+    text = POD_HEADER + "\n\n".join(defs) + "\n\nend GenPod\nend Stevia\n"
+    write_if_changed(os.path.join(GEN, "Pod.lean"), text)
+    return report
+
+
 TREE_FUNCS = {"initialize": "node_initialize"}
 TREE_FUNCS.update({n: n for n in ["capacity", "len", "is_full", "is_empty", "find", "get", "lowest", "contains", "update_height",
               "update_child", "balance_factor", "left_rotate", "right_rotate", "rebalance", "add", "remove_node",
@@ -1488,6 +2278,8 @@ def order_functions(tr):
             def visit(x):
                 if x.kind == "mcall" and x.name in tr.fns and x.name != n:
                     d.add(x.name)
+                if x.kind == "call" and x.f.kind == "path" and len(x.f.path) == 2 and x.f.path[0] == "Self" and x.f.path[1] in tr.fns and x.f.path[1] != n:
+                    d.add(x.f.path[1])
             tr.walk(body, visit)
         deps[n] = d
     out = []
@@ -1542,6 +2334,12 @@ def main():
         gen_tree("src/collections/avl_tree.rs", "Gen32", 32, "Avl32.lean"),
         gen_tree("src/collections/u8_avl_tree.rs", "Gen8", 8, "Avl8.lean"),
         gen_hset("src/collections/hash_set.rs", "GenH", "HSet.lean"),
+        gen_aset("src/collections/array_set.rs", "GenA", "ASet.lean"),
+        gen_str("src/types/prefix_str.rs", "GenP", "PStr.lean", PSTR_FUNCS,
+                lambda f: not (f.name in ("from_bytes", "from_bytes_unchecked") and False)),
+        gen_str("src/pod/pod_str.rs", "GenS", "PodStr.lean", PODSTR_FUNCS,
+                lambda f: not (f.name == "from" and "String" in "".join(t for _, t in f.params))),
+        gen_pod(),
     ]
     print(json.dumps({"translator": reports}))
 
